@@ -47,6 +47,14 @@ class Session:
             b.on_server('connect', lambda sid, env, auth=None: None, ns, co)
             b.on_server('*', self.mk('server', ns, True), ns, co)
             b.on_client('*', self.mk('client', ns, False), ns, co)
+        if kind == 'async':
+            # an application mixes coroutine and plain handlers: the event
+            # 'mixed' is handled by a handler of the other kind than the rest
+            for ns in NSS:
+                b.on_server('mixed', self.mk_named('server', ns, True,
+                                                   'mixed'), ns, not co)
+                b.on_client('mixed', self.mk_named('client', ns, False,
+                                                   'mixed'), ns, not co)
         if kind == 'sync':
             # the threaded server's call() waits on an event that lets the
             # bridge move frames while it waits
@@ -63,6 +71,16 @@ class Session:
                 sid = None
             self.records.append((side, ns, event, list(args), sid))
             return self.rets.get(event)
+        return handler
+
+    def mk_named(self, side, ns, has_sid, event):
+        def handler(*args):
+            if has_sid:
+                sid, args = args[0], args[1:]
+            else:
+                sid = None
+            self.records.append((side, ns, event, list(args), sid))
+            return None
         return handler
 
     def witness(self, extra=None):
@@ -217,11 +235,19 @@ class Session:
         async def send_all_async():
             for name, data in zip(names, datas):
                 await sender.emit(name, data, **kw)
+        mixed = b.is_async and rng.random() < 0.5
         for _ in range(n):
-            names.append(self.new_name())
+            if mixed and rng.random() < 0.4:
+                names.append('mixed')
+                self.seq += 1
+            else:
+                names.append(self.new_name())
             datas.append(self.payload())
             self.rets[names[-1]] = None
-        self.history.append({'burst': n, 'dir': direction, 'ns': ns})
+        if mixed:
+            ctx.count('bursts_with_handlers_of_both_kinds')
+        self.history.append({'burst': n, 'dir': direction, 'ns': ns,
+                             'mixed_handler_kinds': mixed})
         try:
             if b.is_async:
                 b.run(send_all_async())
@@ -633,6 +659,7 @@ def run(ctx):
     ctx.require('callbacks_judged', 50)
     ctx.require('calls_judged', 50)
     ctx.require('bursts_judged', 10)
+    ctx.require('bursts_with_handlers_of_both_kinds', 5)
     ctx.require('overlapping_callback_groups', 5)
     ctx.require('binary_frames_through_bridge', 50)
     ctx.require('reconnects_after_partial_message', 5)
